@@ -12,11 +12,27 @@ typedef unsigned char uchar;
 #define TN 2
 #endif
 #define VSZ 2
+#ifdef QV_C13
+#define QV_LOCK_HOOKS
+#endif
 #include "qv_pthread.h"
 /* hash dependency: deterministic function of the name (its own correctness is C18) */
 uint32_t qhashmurmur3_32(const void *data, size_t nbytes) { return nbytes >= 1 ? 1000u + *(const uchar *)data : 7u; }
 #include "src/containers/qlisttbl.c"
 
+#ifdef QV_C13
+/* C13 overlay (see harness/qvector/vector.c): num/first/last are poison while the table lock is not held */
+static qlisttbl_t *c13_t; static size_t c13_num; static qlisttbl_obj_t *c13_first, *c13_last;
+static void c13_reveal(void) { c13_t->num = c13_num; c13_t->first = c13_first; c13_t->last = c13_last; }
+static void c13_hide(void) { c13_num = c13_t->num; c13_first = c13_t->first; c13_last = c13_t->last; c13_t->num = nondet_size_t(); c13_t->first = NULL; c13_t->last = NULL; }
+void qv_on_acquire(void) { c13_reveal(); }
+void qv_on_release(void) { c13_hide(); }
+#define C13_BEGIN(t) do { c13_t = (t); gh_lock_outer = 0; c13_hide(); } while (0)
+#define C13_SETTLE() c13_reveal()
+#else
+#define C13_BEGIN(t) do { } while (0)
+#define C13_SETTLE() do { } while (0)
+#endif
 static const char NAMES[3] = { 'a', 'A', 'b' };
 struct ent { int nm; size_t size; uchar data[VSZ]; };
 struct model { size_t n; struct ent e[TN + 2]; };
@@ -60,11 +76,18 @@ static struct lstate mk(void) {
     }
     t->num = TN;
     QV_IN(int, depth0); QV_ASSUME(depth0 >= 0 && depth0 <= 2);
-    gh_lock_depth = depth0; gh_lock_acquired = 0;
+    gh_lock_depth = depth0; gh_lock_acquired = 0; gh_lock_outer = 0;
     s.t = t; s.depth0 = depth0;
+#ifdef QV_C13
+    QV_ASSUME(ts && depth0 == 0);
+#endif
     return s;
 }
+#ifdef QV_C13
+#define LOCK_BALANCED(s) do { C13_SETTLE(); QV_ASSERT(gh_lock_depth == (s).depth0 && gh_lock_outer <= 1, "C13: all shared accesses of the operation lie in ONE critical section, which is released on return"); gh_lock_outer = 0; } while (0)
+#else
 #define LOCK_BALANCED(s) QV_ASSERT(gh_lock_depth == (s).depth0, "C14: lock depth on return equals depth on entry")
+#endif
 
 static void check(struct lstate *s, const struct model *m) {
     qlisttbl_t *t = s->t;
@@ -102,6 +125,7 @@ void h_put(void) {
     name[0] = NAMES[nm]; name[1] = 0;
     QV_IN_BYTES(val, VSZ);
     uchar c0 = val[0], c1 = val[1];
+    C13_BEGIN(t);
     errno = 0;
     bool r = qlisttbl_put(t, name, val, vs);
     LOCK_BALANCED(s);
@@ -135,12 +159,15 @@ void h_get_remove(void) {
     QV_IN(bool, newmem); QV_IN(bool, wantsize);
     char name[2]; name[0] = NAMES[nm]; name[1] = 0;
     struct model m = s.m;
+#ifndef QV_C13
     QV_ASSERT(qlisttbl_size(t) == TN, "C08: size reports the entry count");
+#endif
     /* expected matches in lookup order */
     int match[TN + 1]; size_t nmatch = 0;
     if (s.fwd) { for (size_t i = 0; i < TN; i++) if (eqname(&s, m.e[i].nm, nm)) match[nmatch++] = (int)i; }
     else { for (size_t i = TN; i > 0; i--) if (eqname(&s, m.e[i - 1].nm, nm)) match[nmatch++] = (int)(i - 1); }
     size_t sz = 999;
+    C13_BEGIN(t);
     errno = 0;
     uchar *d = qlisttbl_get(t, name, wantsize ? &sz : NULL, newmem);
     LOCK_BALANCED(s);
@@ -155,6 +182,7 @@ void h_get_remove(void) {
     }
     /* getmulti: all matches in lookup order */
     size_t cnt = 777;
+    C13_BEGIN(t);
     errno = 0;
     qlisttbl_data_t *objs = qlisttbl_getmulti(t, name, newmem, &cnt);
     LOCK_BALANCED(s);
@@ -167,6 +195,7 @@ void h_get_remove(void) {
         qlisttbl_freemulti(objs);
         QV_REACH("getmulti done");
     } else QV_ASSERT(nmatch == 0 ? errno == ENOENT : (errno == ENOMEM || newmem), "C08,C15: getmulti returns NULL only when nothing matches (ENOENT), the result array could not be allocated (ENOMEM), or the copy of the first match could not be allocated");
+    C13_BEGIN(t);
     size_t removed = qlisttbl_remove(t, name);
     LOCK_BALANCED(s);
     QV_ASSERT(removed == nmatch, "C08: remove deletes all matches and returns their number");
